@@ -184,6 +184,7 @@ func c10scenario(kind string, steps, bound int, reader bool, go123 bool, alphabe
 		finished := false
 		var finalDL time.Duration
 		mainInRead, readerInRead := false, false
+		inEpilogue := false
 		var dls []dlEntry
 		avail := 0 // datagrams delivered and not yet read (model)
 		fail := func(sig, format string, a ...any) {
@@ -309,6 +310,28 @@ func c10scenario(kind string, steps, bound int, reader bool, go123 bool, alphabe
 					judge("main", start, zzvsched.Elapsed(), n, err, settled)
 				}
 			}
+			// epilogue: a datagram that was delivered and never returned by a read must still be there (a read
+			// that failed with a timeout consumes nothing)
+			if avail > 0 {
+				zzvsched.WaitIdle()
+			}
+			if avail > 0 && !readerInRead { // (a reader still parked in Read is judged at final quiescence)
+				// no deadline here: with a finite one a stalled thread could make the read time out legitimately;
+				// a lost datagram shows as this read never returning
+				setRD(time.Time{}, 0)
+				inEpilogue = true
+				for avail > 0 {
+					mainInRead = true
+					_, err := c.read(make([]byte, 32))
+					mainInRead = false
+					if err != nil {
+						fail("C10 datagram-lost "+kindClass(kind), "%d datagram(s) were delivered and never returned by a read, yet a read without deadline failed (%v)", avail, err)
+						break
+					}
+					avail--
+				}
+				inEpilogue = false
+			}
 			finished = true
 			finalDL = cur()
 			// no cleanup: the liveness side is judged at final quiescence (every timer
@@ -323,6 +346,10 @@ func c10scenario(kind string, steps, bound int, reader bool, go123 bool, alphabe
 				return out, viol
 			}
 			if !finished {
+				if inEpilogue {
+					return out, &explore.Violation{Sig: "C10 datagram-lost " + kindClass(kind),
+						Msg: fmt.Sprintf("%s, history %v: %d datagram(s) were delivered and never returned by a read, yet a final read without deadline finds nothing and blocks: a read that fails with a timeout must not consume data", kind, script, avail)}
+				}
 				if mainInRead {
 					return out, &explore.Violation{Sig: "C10 read-blocks-after-expiry " + kindClass(kind),
 						Msg: fmt.Sprintf("%s, history %v: Read never returned although a non-zero read deadline (%v) was in force: a passed deadline must keep failing reads with a timeout", kind, script, fmtDls(dls))}
